@@ -310,7 +310,17 @@ type callSite struct {
 // callSitesOf lists the calls of f.  complete is false when f may be called
 // from somewhere the analysis does not see (exported, or used as a value).
 func (c *Ctx) callSitesOf(f *core.Func) (calls []callSite, complete bool) {
+	return c.callSites(f, false)
+}
+
+// callSites is callSitesOf; with moduleOnly an exported function counts as
+// completely known when the module itself only ever calls it (callers outside
+// the module are not what the properties speak about).
+func (c *Ctx) callSites(f *core.Func, moduleOnly bool) (calls []callSite, complete bool) {
 	key := "callsites:" + f.Name
+	if moduleOnly {
+		key = "callsites-module:" + f.Name
+	}
 	type res struct {
 		calls    []callSite
 		complete bool
@@ -322,7 +332,7 @@ func (c *Ctx) callSitesOf(f *core.Func) (calls []callSite, complete bool) {
 	complete = true
 	var target types.Object
 	if f.Decl != nil {
-		if f.Obj == nil || f.Obj.Exported() {
+		if f.Obj == nil || (f.Obj.Exported() && !moduleOnly) {
 			complete = false
 		}
 		target = f.Obj
